@@ -193,3 +193,100 @@ func ruleGuardedMapReads(r *Run) {
 	}
 	r.check(n >= 10, "repo:guarded-map-reads", fmt.Sprintf("%d reads of %d mutex-guarded map fields", n, len(guard)), "too few: rule needs review", "-")
 }
+
+// ---------------------------------------------------------------------------------------------
+// R20.26 / R11.17 — an index range computed in one critical section is not used in a later one
+
+func init() {
+	reg := func(id, prop string) {
+		register(ruleDef{ID: id, Prop: prop, Tier: "quick", Floor: 1,
+			Title: "positions in a mutex-guarded slice do not outlive the critical section that computed them: a loop that indexes a guarded slice under one acquisition of its mutex is not bounded by positions computed under an earlier acquisition (the slice can shrink in between: an index out of range in a goroutine nobody recovers)",
+			Fn:    ruleStaleIndexAcrossSections})
+	}
+	reg("R20.26", "C20")
+	reg("R11.17", "C11")
+}
+
+func ruleStaleIndexAcrossSections(r *Run) {
+	w := r.W
+	n := 0
+	for _, top := range w.RepoFuncs {
+		if len(top.Blocks) == 0 || top.Parent() != nil || strings.HasSuffix(w.fposFile(top), "_test.go") || !strings.HasPrefix(relPkg(pkgPathOf(top)), "datatype/") {
+			continue
+		}
+		for _, f := range withClosures(top) {
+			names := map[string]bool{}
+			for _, b := range f.Blocks {
+				for _, in := range b.Instrs {
+					if op, ok := asLockOp(in); ok && op.lock {
+						names[op.name] = true
+					}
+				}
+			}
+			if len(names) == 0 {
+				continue
+			}
+			k := 0
+			for _, b := range f.Blocks {
+				for _, in := range b.Instrs {
+					ia, ok := in.(*ssa.IndexAddr)
+					if !ok {
+						continue
+					}
+					if _, _, isField := mapFieldOf(ia.X); !isField {
+						continue
+					}
+					phi, ok := ia.Index.(*ssa.Phi)
+					if !ok {
+						continue
+					}
+					for name := range names {
+						held, by := heldAt(f, ia, name, false)
+						if !held || by == nil {
+							continue
+						}
+						// values the loop counter starts from / is compared with
+						var bounds []ssa.Value
+						bounds = append(bounds, phi.Edges...)
+						if phi.Referrers() != nil {
+							for _, ref := range *phi.Referrers() {
+								if bo, ok := ref.(*ssa.BinOp); ok {
+									bounds = append(bounds, bo.X, bo.Y)
+								}
+							}
+						}
+						checked := false
+						bad := ""
+						for _, bv := range bounds {
+							bi, ok := bv.(ssa.Instruction)
+							if !ok || bv == ssa.Value(phi) {
+								continue
+							}
+							if _, isCall := bv.(*ssa.Call); !isCall {
+								continue
+							}
+							h2, by2 := heldAt(f, bi, name, false)
+							if !h2 || by2 == nil {
+								continue
+							}
+							checked = true
+							if by2 != by {
+								bad = w.pos(bi.Pos())
+							}
+						}
+						if !checked {
+							continue
+						}
+						n++
+						k++
+						r.check(bad == "", fmt.Sprintf("%s:guarded-slice-loop#%d:bounds-from-this-section", fname(f), k), "the positions are computed under the acquisition that uses them",
+							"a guarded slice is indexed under one acquisition of "+name+" with positions that were computed under an earlier acquisition: an element removed in between makes the index run past the end (a panic in a goroutine that nothing recovers)", bad)
+					}
+				}
+			}
+		}
+	}
+	if n == 0 {
+		r.ok("datatype:guarded-slice-loops", "no loop indexes a guarded slice under a lock with bounds computed under a lock", "-")
+	}
+}
